@@ -76,6 +76,8 @@ def framing_ok(b, addpath):
 
 
 def line_of(c):
+    if c["op"] == "rich":
+        return "rich"
     if c["op"] == "enc":
         return "enc %d %d %s" % (1 if c["ext"] else 0, 1 if c["ap"] else 0, wirelib.sx(c["msg"]))
     return "dec %d %s" % (1 if c["ap"] else 0, c["bytes"].hex())
@@ -88,6 +90,14 @@ def norm(c, out):
 
 
 def oracle(c, out):
+    if c["op"] == "rich":
+        # constructor-built attributes of every family/kind the harness knows: Len() == octets, own output parses, fixpoint
+        if out.startswith("ok"):
+            return None
+        if out.startswith("fail ("):
+            f = out[6:].split()
+            return ("%s-type-%s" % (f[0], f[1].rstrip(")")), out[:400])
+        return ("harness", out[:300])
     if c["op"] == "enc":
         if out.startswith("fail") or out.startswith("panic") or out.startswith("err"):
             return (out.split()[1] if out.startswith("fail") else "harness", "%s" % out[:300])
@@ -123,14 +133,18 @@ def run(ctx):
             for c, o in list(zip(cases, outs)):
                 if o.startswith("ok "):
                     cases.append({"op": "dec", "ap": c["ap"], "bytes": bytes.fromhex(o[3:]), "emitted": True})
+    cases.append({"op": "rich"})
     cov = core.differential(ctx, "c04", proof, cases, line_of, oracle, norm_impl=norm, norm_model=norm,
-                            nontrivial=lambda c: c["op"] == "dec" or (c["msg"][0] == "update" and len(c["msg"][2]) >= 2),
+                            model_applies=lambda c: c["op"] != "rich",
+                            nontrivial=lambda c: c["op"] in ("dec", "rich") or (c["msg"][0] == "update" and len(c["msg"][2]) >= 2),
                             correspondence_name="BGPMessage.Serialize / ParseBGPMessage / attribute and NLRI codecs vs Wire.Model enc_msg / dec_msg")
     pc = core.proof_coverage(proof)
     pc.update(cov)
     kinds = {}
     for c in cases:
         k = c["op"] + ("-" + c["msg"][0] if c["op"] == "enc" else "")
+        if c["op"] == "rich":
+            k = "rich (42 constructor-built attributes: the package's test UPDATE + internal/verif/seeds)"
         kinds[k] = kinds.get(k, 0) + 1
     pc.update({
         "input_distribution": kinds,
@@ -140,7 +154,8 @@ def run(ctx):
                 "non-trivial = UPDATE with at least 2 attributes or a decode case",
         "trusted_base": core.TRUSTED_COMMON + ["independent framing reader in checks/c04.py (RFC 4271 / 7911 rules)"],
     })
-    return ctx.finish(pc, ["OPEN (capabilities), MP_REACH/MP_UNREACH and every NLRI family other than IPv4 unicast are NOT in the model and not generated by this check",
+    return ctx.finish(pc, ["OPEN (capabilities), MP_REACH/MP_UNREACH and every NLRI family other than IPv4 unicast are NOT in the model; for them the 'rich' case checks, on one "
+                           "constructor-built value per family / kind (42 attributes), that Len() equals the octets emitted, that the output parses and that re-serialising is a fixpoint",
                            "2-octet AS encoding is C14's subject"])
 
 
